@@ -32,8 +32,10 @@ class FieldCompositeModel(FieldModel):
         super().__init__(name)
         # Captures whether this field was declared rand
         self.is_declared_rand = is_rand
-        # Captures whether this field is being used as rand
-        self.is_used_rand = is_rand
+        # Captures whether this field is being used as rand: decided per call
+        # (set_used_rand). Until then nothing is being solved for, and the
+        # elements of a list take this status over when they are created
+        self.is_used_rand = False
         self.rand_mode = is_rand
         self.rand_if = rand_if
         self.field_l = []
